@@ -3281,18 +3281,14 @@ impl<'a> Visitor<'a, '_, Error> for JSONValidator<'a> {
       token::Value::FLOAT(v) => match &self.json {
         Value::Number(n) => match n.as_f64() {
           Some(f) => match &self.state.ctrl {
-            Some(ControlOperator::NE) | Some(ControlOperator::DEFAULT)
-              if (f - *v).abs() > f64::EPSILON =>
-            {
-              None
-            }
+            Some(ControlOperator::NE) | Some(ControlOperator::DEFAULT) if f != *v => None,
             Some(ControlOperator::LT) if f < *v => None,
             Some(ControlOperator::LE) if f <= *v => None,
             Some(ControlOperator::GT) if f > *v => None,
             Some(ControlOperator::GE) if f >= *v => None,
             #[cfg(feature = "additional-controls")]
             Some(ControlOperator::PLUS) => {
-              if (f - *v).abs() < f64::EPSILON {
+              if f == *v {
                 None
               } else {
                 Some(format!("expected computed .plus value {}, got {}", v, n))
@@ -3303,7 +3299,7 @@ impl<'a> Visitor<'a, '_, Error> for JSONValidator<'a> {
             | Some(ControlOperator::FEATURE)
             | Some(ControlOperator::AND)
             | Some(ControlOperator::WITHIN) => {
-              if (f - *v).abs() < f64::EPSILON {
+              if f == *v {
                 None
               } else {
                 Some(format!("expected value {}, got {}", v, n))
@@ -3311,7 +3307,7 @@ impl<'a> Visitor<'a, '_, Error> for JSONValidator<'a> {
             }
             #[cfg(not(feature = "additional-controls"))]
             None | Some(ControlOperator::AND) | Some(ControlOperator::WITHIN) => {
-              if (f - *v).abs() < f64::EPSILON {
+              if f == *v {
                 None
               } else {
                 Some(format!("expected value {}, got {}", v, n))
